@@ -14,31 +14,79 @@ import TsVerif.C17.WellNested
 /-!
 # C17 — Highlight events are well nested and reproduce the source text exactly
 
-Property text: *For any source, the highlighter's event stream consists of source spans that are
-contiguous, increasing and cover the text from first to last byte exactly once, interleaved with
-start/end events that are properly nested and all closed at the end; spans produced by an injected
-language stay inside the injection's content.  The HTML renderer's output, with tags removed and
-entities decoded, is the source text up to its documented normalisations (carriage returns
-dropped, invalid UTF-8 replaced, a final newline added), and a name resolved as a local reference
-is highlighted like its definition.*
+Property text (`properties.jsonl`): *For any source, the highlighter's event stream consists of source
+spans that are contiguous, increasing and cover the text from first to last byte exactly once,
+interleaved with start/end events that are properly nested and all closed at the end; spans
+produced by an injected language stay inside the injection's content.  The HTML renderer's output,
+with tags removed and entities decoded, is the source text up to its documented normalisations
+(carriage returns dropped, invalid UTF-8 replaced, a final newline added), and a name resolved as a
+local reference is highlighted like its definition.*  Quantifier: all sources over the zoo languages
+with highlight, locals and injection queries (nested and combined), all recognised-name lists,
+highlighter reuse across documents.
 
-Clause map (models: `TsVerif/C17/Model.lean`, `Merge.lean`; judges: `Judge.lean`):
+## Clause map (phrase of the text → theorems; `partial` = proved under a stated premise that excludes
+part of what the text includes; `model` = statement about the hand-ported Lean model, tied to the real
+code only by exact reproduction of real streams (correspondence) on the generated cases; `judged only`
+= no theorem, a Lean judge runs on every real output)
 
-| clause | theorem(s) | status |
-|---|---|---|
-| HTML, tags removed + entities decoded = normalised text | `render_roundtrip_gen` (any decoder, ANY event stream), `render_roundtrip_fixed` (full statement, for the iterator of `fixes/C17-lossy-truncated.diff`), `render_roundtrip_partial` (unchanged iterator, chunks without tail loss); OPEN `render_roundtrip` is FALSE on the unchanged tree: `render_roundtrip_witness_truncated`, `render_roundtrip_witness_final_invalid` | proved / witness |
-| "invalid UTF-8 replaced" | `lossyFixed_eq_spec` (∀ bytes), `lossy_eq_spec_partial` (no tail loss), witnesses `lossy_drops_truncated_tail`, `lossy_drops_final_replacement` | proved / witness |
-| "reproducing the source text exactly" | `render_reproduces_source` (well-formed stream, valid UTF-8 source, spans ending on character boundaries: html text = source without CRs + final-newline rule) | proved |
-| normalisation of the WHOLE source | `normalize_whole` (well-formed stream whose chunks do not end inside a character ⇒ decoded chunks = decoded source), `render_roundtrip_whole_fixed` | proved |
-| renderer does not panic on a well-formed stream | `render_total_of_wellFormed` | proved |
-| Source spans contiguous/increasing/covering, Start/End nested and closed (END-TO-END model: layers + locals + the injection step computed by the model, `Full.lean`) | `merge_full_wellformed` (terminates and is well formed for every layer/match table with offsets inside the source and injections creating later layers; both conditions checked on every real case; tied by exact reproduction of real streams with locals AND injections, combined, self/parent) | proved for the model, judged on every real stream |
-| Source spans contiguous/increasing/covering, Start/End nested and closed | `merge_wellformed_partial` (model of the merge of ONE layer: `highlight_end_stack`, `emit_event`, `next_event`; tied by correspondence); `merge_multi_wellformed` (several layers: `sort_key`, `sort_layers`, `insert_layer`, `last_highlight_range`; no locals branch; the run provably finishes when injections refer to later layers of the table — `refsUp`, checked on every real case), `merge_multi_wellformed_partial` (any layer table, if the run finishes); both models tied by correspondence | proved for the models, judged on every real stream |
-| each End closes the highlight of the capture that ends there (scope stack = captures containing the byte) | `merge_stack_spec_partial` (single-layer merge, captures in nesting order: over every Source span the stack of open highlights IS the list of highlights of the containing captures, innermost first); several layers: judged on every applicable real stream (`judgeStacks`), theorem OPEN | proved for one layer, judged |
-| events in offset order across layers (ends before starts at one offset, deeper layers first) | `sort_key_order` (strict total order), `sort_layers_restores_order`, `insert_layer_keeps_order`, `merge_layers_stay_ordered_partial` (every iteration leaves the layer list ordered by `sort_key`, so the head has the minimal key) — hypothesis: the INITIAL list is ordered; FALSE for the unchanged `Highlighter::highlight` with two combined-injection layers (`initial_layers_unordered_witness`; fix `fixes/C17-initial-layer-order.diff`) | proved / witness |
-| no event is late in the multi-layer merge (each Start at its capture's start, each End at its capture's end) | `initial_layers_ordered`, `merge_layers_stay_ordered` (UNCONDITIONAL for the repaired set-up), `merge_events_in_place` (byte offset ≤ every pending boundary of every layer in every reachable state, under `DefsNice`) | proved for the repaired multi-layer model |
-| start/end events properly nested across layers ("every End closes the most recently opened still-open span") | `merge_well_nested_partial` (repaired multi-layer model, static layers, `staticNice`: at every `HighlightEnd` the top of the global open stack is the span that ends there; the stack is sorted by end and is exactly all layers' end stacks); witness for the dropped premise `well_nested_needs_crossNice` | proved (static layers), judged on every applicable real stream |
-| injected spans inside the content | `intersect_ranges_spec`, `injected_content_inside` (port of `intersect_ranges`: every content range is non-empty, inside a range of the parent layer, inside a content node and — unless include-children — clear of the node's children); that a layer's SPANS start inside its included ranges is a property of parsing with included ranges (C13), judged on every real stream by `judgeInjected` | ranges proved, spans judged |
-| local reference like definition | `local_ref_like_def`, `findDef_newest` (port of the locals branch for one layer, `Locals.lean`, tied by correspondence on layers with a locals query): a reference whose enclosing scopes up to the defining one all inherit and do not define the name takes the highlight stored for the newest admissible definition; also judged on every real stream (`judgeLocals`) | proved for the one-layer model, judged |
+| # | phrase | theorems | mark |
+|---|---|---|---|
+| 1 | "for any source, the highlighter's event stream" | every merge theorem below quantifies over ALL capture tables / layer tables of the model (`∀ caps`, `∀ defs top n`, `∀ cx`); the real parser + query engine that produce those tables are NOT modelled (C01–C16 territory) | model; real streams judged only (`judgeEvents` on every real stream: H, M, N, K, F, C, S cases) |
+| 2 | "source spans that are contiguous, increasing and cover the text from first to last byte exactly once" | `merge_wellformed_partial` (one layer), `merge_multi_wellformed` / `merge_multi_wellformed_partial` (several layers, injections creating layers), `merge_full_wellformed` (layers + locals + `injection_for_match`); `judgeEvents n evs = true` says exactly: spans contiguous from 0 to n, non-empty, increasing | model; premises `capsIn`/`defsIn` (captures inside the source) and `refsUp` (injections create later table entries) are checked on every real case, never failed |
+| 3 | "interleaved with start/end events that are properly nested" | syntactic nesting (never an End without an open Start): same theorems as 2.  Nesting WITH SPAN IDENTITY ("each End closes the span that ends there, which is the most recently opened one"): `merge_stack_spec_partial` (one layer), `merge_well_nested_partial` (several STATIC layers, premise `staticNice`: laminar + start ties oriented like the code emits them) with witnesses `well_nested_needs_crossNice`, `well_nested_needs_laminar`, `well_nested_equal_depth_tie` | model, partial (dynamic layers OPEN); real streams judged (`judgeStacks`) on the applicable ones |
+| 4 | "and all closed at the end" | same theorems as 2 (`judgeEvents` requires depth 0 after the last event) | model |
+| 5 | "spans produced by an injected language stay inside the injection's content" | `intersect_ranges_spec`, `injected_content_inside` (every computed content range is non-empty, inside a parent range, inside a content node, clear of children unless include-children), `injection_language_captured`; that a layer's captures lie inside its included ranges is a fact about parsing with included ranges (C13) | ranges: proved for the port (compared with the real private function through `hooks/C17-reexport.diff` when applied); SPANS inside content: judged only (`judgeInjected`, every real stream with injections) |
+| 6 | "the HTML renderer's output, with tags removed and entities decoded, is the source text up to its documented normalisations" | `render_roundtrip_gen` (ANY event stream, any decoder: html text = concatenated decoded chunks without CR + final newline rule), `render_roundtrip_fixed`, `render_roundtrip_partial`, `render_roundtrip_whole_fixed`, `render_reproduces_source` (valid UTF-8: html text = source without CRs + newline rule), `render_total_of_wellFormed` | model of `HtmlRenderer`; `_partial` for the iterator of the tree before `fixes/C17-lossy-truncated.diff` (witnesses `render_roundtrip_witness_truncated`, `render_roundtrip_witness_final_invalid`); real HTML judged on every R/H/C case (`judgeHtml`) |
+| 7 | "carriage returns dropped" | part of `judgeHtml`/`textOf` (`filter (· ≠ 13)`) in the theorems of 6; `normalize_whole` | model |
+| 8 | "invalid UTF-8 replaced" | `lossyFixed_eq_spec` (∀ bytes, iterator after the fix = `String::from_utf8_lossy` spec), `lossy_eq_spec_partial`, `lossyV_diag`, witnesses `lossy_drops_truncated_tail`, `lossy_drops_final_replacement`, `lossySpec_valid` | model of `LossyUtf8`, compared byte for byte with the real iterator on every L case; `lossySpec` is my port of the std spec, compared with the real `from_utf8_lossy` on every L case |
+| 9 | "a final newline added" | `judgeHtml` alternatives in 6 (`t ++ "\n"` always, `t` only if it ends in a newline) | model; boundary convention below |
+| 10 | "a name resolved as a local reference is highlighted like its definition" | `local_ref_like_def`, `findDef_newest` (one layer) | model, partial (see gaps); real streams judged (`judgeLocals`) |
+| 11 | events in offset order across layers (mechanism anchor "event emission in offset order across layers") | `sort_key_order`, `sort_layers_restores_order`, `insert_layer_keeps_order`, `merge_layers_stay_ordered_partial`, `initial_layers_ordered`, `merge_layers_stay_ordered`, `merge_events_in_place`; witness `initial_layers_unordered_witness` (set-up before `fixes/C17-initial-layer-order.diff`) | model |
+| 12 | "all recognised-name lists", "highlighter reuse across documents" (quantifier) | no theorem | judged only (names modes 0–3 in H/F cases; histories over one `Highlighter`, S cases, each stream judged and compared with a fresh highlighter) |
+
+## Gaps (each theorem checked against the text)
+
+* **All merge theorems are about the models.**  Nothing is proved about `highlight.rs` itself; the
+  tie is exact reproduction of the real event stream by the model on every generated case (M, N, K, F)
+  plus the judges on every real stream.  A source outside the generated families is covered by the
+  theorems only as far as the model is faithful there.
+* **2/3/4 `merge_full_wellformed`** needs `Full.refsUp` and `Full.defsIn`; both are facts about the
+  harness' table construction / tree-sitter node ranges, checked per case, not proved.  Cancellation
+  and the error path are outside the theorems (judged: C/E cases).
+* **3 span identity is `partial`**: `merge_stack_spec_partial` is one layer without locals and needs
+  `capsOk` (captures in nesting order: outer first at equal start).  `merge_well_nested_partial`
+  needs (a) STATIC layers (`noInj`: no layer created during the run) — injections created during the
+  run are OPEN; two obstacles found: distinctness of the live layers' ids needs "each layer id
+  referenced at most once" as an invariant over the not yet created layers, and the judge's tie
+  orientation is NOT sufficient there: a shallower span already opened at byte p when a deeper layer
+  with a longer capture at p is created breaks nesting in the model (the real code avoids this only
+  because injection patterns precede highlight patterns in the combined query); (b) `crossNice`
+  (different layers laminar; start ties only between different depths with the shallower span not
+  longer); (c) the repaired set-up (`initLayersR`).  Measured on the real multi-layer cases of the
+  quick tier (default seed): `crossNice` holds on 165/303; 109/303 have a start tie with the wrong
+  orientation (the real stream itself closes the wrong span there; `judgeStacks` skips them as
+  `skip-start-tie`), 29/303 are not laminar; only 17/303 are static and 8/303 satisfy the full
+  premise `staticNice`.  So the theorem covers 8/303 of the real multi-layer cases; the rest is
+  judged only.
+* **5 "spans … inside the content" is judged only** for spans; the theorems are about the ranges
+  handed to the parser.  `judgeInjected` checks Starts only and tolerates a zero-width span at the
+  end of a range (missing-token nodes).
+* **6 `render_reproduces_source`** assumes a well-formed stream, valid UTF-8 and span boundaries on
+  character boundaries (`endsTruncated = false`); for invalid UTF-8 the statement is per chunk
+  (`render_roundtrip_fixed`: text = concatenation of the lossy decodings of the chunks), which differs
+  from the lossy decoding of the whole source when a boundary splits a multi-byte sequence — that is
+  what the code does, and the text's "invalid UTF-8 replaced" does not say which.  `hattr` (the
+  attribute callback never writes `>`) is an external contract, not in the text.
+* **9** the renderer adds the newline after the last html BYTE (a closing tag after a final newline
+  still gets one): accepted by the judge, stated in the boundary conventions.
+* **10 `local_ref_like_def` is `partial`**: one layer; the reference is the capture being processed;
+  hypotheses: every scope above the defining one inherits and does not define the name, and no
+  definition capture is pending on the same node (`defP = false`).  "highlighted like its
+  definition" is proved as "takes the highlight STORED for the definition"; that the stored
+  highlight is the one the definition itself was emitted with is judged only (`judgeLocals`).
+  `local.definition-value` never takes effect in the real code (value range always 0..0): observation
+  in notes, outside the text.
+* **12** is judged only.
 
 Boundary conventions: the renderer adds the final newline whenever the last HTML *byte* is not a
 newline, so a text that already ends in a newline still gets one when a tag follows it; `judgeHtml`
@@ -434,15 +482,19 @@ theorem initial_layers_unordered_witness :
 
 /-- WELL-NESTEDNESS of the merged multi-layer stream.  Layers as static data (the root and the
 layers of its combined injections — no injection capture during the run), every layer's captures in
-start order, nested or disjoint, in nesting order, different layers pairwise laminar and tie-free at
-starts (`staticNice`, decidable; the driver evaluates it on every real case), distinct layer ids.
+start order, nested or disjoint, in nesting order; different layers, over the captures that can
+become spans (`spanCaps`: the node has a capture with a recognised highlight): laminar, and two
+non-empty captures starting at the same byte belong to layers of different depths with the SHALLOWER
+layer's capture not the longer one — the orientation in which the code emits them (deeper layer's
+Start first), the same test as the StackSpec judge's `startTiesOk` (`staticNice`, decidable; the
+driver evaluates it on every real case), distinct layer ids.
 Run the repaired model and keep the GLOBAL stack of the ends of the open spans by stack discipline
 (`iterG`: push the capture's end at a `HighlightStart`, pop at a `HighlightEnd`, FAIL if the top is not
 the end being closed).  Then the run never fails: every `HighlightEnd` closes the most recently
 opened still-open span, and that span ends exactly there; moreover the global stack is always sorted
 by end (inner spans end first) and is a permutation of all layers' `highlight_end_stack`s.
-`_partial`: static layers (injections created during the run: OPEN, needs the uniqueness of layer
-references as an invariant); `crossNice` cannot be dropped (witness below). -/
+`_partial`: static layers (injections created during the run: OPEN, see the header); the three parts
+of `crossNice` cannot be dropped (witnesses below). -/
 theorem merge_well_nested_partial (defs : List LayerDef) (top : List Nat) (n k : Nat) (st' : MSt)
     (hnice : staticNice defs = true) (hnd : top.Nodup)
     (h : iterM defs n k { layers := initLayersR defs top } = some st') :
@@ -484,7 +536,16 @@ example : staticNice nestedStatic = true ∧
     (List.range 9).map (fun k => (iterG nestedStatic 15 k { layers := initLayersR nestedStatic [0, 1] } []).map (·.2)) =
       [some [], some [10], some [5, 10], some [10], some [7, 10], some [10], some [], some [14], some []] := by decide
 
-/-- `crossNice` cannot be dropped: a START TIE where the shallower layer's span is the longer one.
+/-- non-vacuity of the tie orientation: the deeper layer's span starts at the same byte as the root's
+and is the longer one; and a raw tie with an unrecognised capture is no tie at all -/
+def tieOriented : List LayerDef := [⟨0, [⟨0, 4, 1, .hl (some 1)⟩]⟩, ⟨1, [⟨0, 10, 2, .hl (some 2)⟩]⟩]
+def tieUnrecognised : List LayerDef := [⟨0, [⟨0, 10, 1, .hl (some 1)⟩]⟩, ⟨1, [⟨0, 4, 2, .hl none⟩, ⟨5, 6, 3, .hl (some 3)⟩]⟩]
+
+example : staticNice tieOriented = true ∧ staticNice tieUnrecognised = true ∧
+    (List.range 5).map (fun k => (iterG tieOriented 10 k { layers := initLayersR tieOriented [0, 1] } []).map (·.2)) =
+      [some [], some [10], some [4, 10], some [10], some []] := by decide
+
+/-- `crossNice` cannot be dropped (1): a START TIE where the shallower layer's span is the longer one.
 The deeper layer's Start is emitted first, so the stack is `[10, 4]`, and the End emitted at 4 finds
 the span ending at 10 on top: the ghost run fails at the third iteration although the loop goes on
 (the unchanged code does exactly this on real streams: the judge reports such cases as
@@ -496,6 +557,24 @@ theorem well_nested_needs_crossNice :
     (iterM tieStatic 10 3 { layers := initLayersR tieStatic [0, 1] }).isSome = true ∧
     (iterG tieStatic 10 2 { layers := initLayersR tieStatic [0, 1] } []).map (·.2) = some [10, 4] ∧
     iterG tieStatic 10 3 { layers := initLayersR tieStatic [0, 1] } [] = none := by decide
+
+/-- (2) laminarity cannot be dropped: spans of two layers that cross. -/
+def crossingStatic : List LayerDef := [⟨0, [⟨0, 6, 1, .hl (some 1)⟩]⟩, ⟨1, [⟨3, 9, 2, .hl (some 2)⟩]⟩]
+
+theorem well_nested_needs_laminar :
+    crossLam crossingStatic = false ∧ crossNice crossingStatic = false ∧
+    (iterM crossingStatic 10 3 { layers := initLayersR crossingStatic [0, 1] }).isSome = true ∧
+    (iterG crossingStatic 10 2 { layers := initLayersR crossingStatic [0, 1] } []).map (·.2) = some [9, 6] ∧
+    iterG crossingStatic 10 3 { layers := initLayersR crossingStatic [0, 1] } [] = none := by decide
+
+/-- (3) a start tie between two layers of the SAME depth (two combined injections) is excluded: the
+order of the two Starts is the insertion order, which the spans' lengths do not determine. -/
+def equalDepthTie : List LayerDef := [⟨1, [⟨0, 4, 1, .hl (some 1)⟩]⟩, ⟨1, [⟨0, 10, 2, .hl (some 2)⟩]⟩]
+
+theorem well_nested_equal_depth_tie :
+    crossLam equalDepthTie = true ∧ crossNice equalDepthTie = false ∧
+    (iterG equalDepthTie 10 2 { layers := initLayersR equalDepthTie [0, 1] } []).map (·.2) = some [10, 4] ∧
+    iterG equalDepthTie 10 3 { layers := initLayersR equalDepthTie [0, 1] } [] = none := by decide
 
 /-! ## Several layers -/
 
